@@ -26,7 +26,25 @@ pub fn streams() -> Vec<Stream> {
     vec![
         Stream { name: "c13_file", gen: gen::gen_file, run: run_file },
         Stream { name: "c13_otlp", gen: gen::gen_otlp, run: run_otlp },
+        // authoring aid, not a checked stream: re-prints a hand-written case line in canonical form
+        Stream { name: "c13_mk", gen: |_, _, _| Vec::new(), run: run_mk },
     ]
+}
+
+fn run_mk(line: &str) -> String {
+    case::LOOSE.store(true, Ordering::Relaxed);
+    let r = (|| {
+        let s = Sexp::parse(line)?;
+        let (tag, a) = s.as_tagged()?;
+        let (head, ev) = a.split_at(a.len().checked_sub(1)?);
+        let d = EventD::parse(&ev[0])?;
+        let mut out = vec![Sexp::atom(tag)];
+        out.extend(head.iter().cloned());
+        out.push(d.to_sexp()?);
+        Some(Sexp::list(out).to_string())
+    })();
+    case::LOOSE.store(false, Ordering::Relaxed);
+    r.unwrap_or_else(|| "bad-case".into())
 }
 
 // ------------------------------------------------------------------------------------------ c13_file
@@ -125,7 +143,7 @@ fn run_file(line: &str) -> String {
     };
     match file_bytes(&d) {
         None => "bad-case".into(),
-        Some(Err(e)) => e,
+        Some(Err(e)) => format!("{}\tFAIL:{}-on-the-emitting-thread", e, e),
         Some(Ok(bytes)) => {
             let out = if bytes.is_empty() {
                 "discarded".to_string()
@@ -182,7 +200,8 @@ fn run_otlp(line: &str) -> String {
     let Some((p, j)) = sent else { return "bad-case".into() };
     let fail = |out: &str, why: String| format!("{}\tFAIL:{}", out, why.replace(['\t', '\n', ' '], "-"));
     match (p, j) {
-        (Sent::Panic, Sent::Panic) => "panic".into(),
+        // the model predicts the panic (it follows the code), the property forbids it
+        (Sent::Panic, Sent::Panic) => "panic\tFAIL:panic-on-the-emitting-thread".into(),
         (Sent::Nothing, Sent::Nothing) => "none".into(),
         (Sent::Body(pb), Sent::Body(jb)) => {
             let pc = match signal {
